@@ -125,7 +125,7 @@ struct Init {
         {   // C14 mode state machine and error precedence
             Profile p; p.id = "C14"; p.level = "exploration"; p.exhaustive = false;
             p.technique = "deterministic simulation: exhaustive (depth 3) and seeded (depth 12) histories of mode-changing calls (incl. a failing enddef) with probe calls from every API family, against a reference mode automaton";
-            p.rule = "histories over the mode-changing alphabet {enddef, redef, begin_indep, end_indep, close+reopen rw, close+reopen ro, abort+reopen, define two over-sized variables + enddef (must fail with NC_EVARSIZE and stay in define mode; CDF-1/2)} from five starts {created, opened writable, opened read-only, a file without variables opened writable, the same opened read-only}; after every step one probe call from each API family (define, attribute, set_fill, collective and independent get, collective put, nonblocking post+cancel, wait_all, wait, cancel, sync, sync_numrecs, buffer attach/detach, inquiry) is issued by all ranks; seeds map to all 5 x 8^3 = 2560 histories of depth 3 (enumerated completely every run) and to seeded walks of depth 4..12; oracle: return code == reference automaton (documented precedence EPERM, EINDEFINE, ... for put/get and put_att; either applicable code where no precedence is documented), a rejected call changes no byte of the file (image diff around it) and later calls still behave as the automaton says; non-trivial = at least one call was rejected and one accepted";
+            p.rule = "histories over the mode-changing alphabet {enddef, redef, begin_indep, end_indep, close+reopen rw, close+reopen ro, abort+reopen, define two over-sized variables + enddef (must fail with NC_EVARSIZE and stay in define mode; CDF-1/2), ncmpi__enddef} from five starts {created, opened writable, opened read-only, a file without variables opened writable, the same opened read-only}; after every step one probe call from each API family (define, attribute, set_fill, collective and independent get, collective put, multi-variable put (_all) and get (independent), nonblocking post+cancel, wait_all, wait, cancel, sync, sync_numrecs, buffer attach/detach, inquiry) is issued by all ranks; seeds map to all 5 x 9^3 = 3645 histories of depth 3 (enumerated completely every run) and to seeded walks of depth 4..12; oracle: return code == reference automaton (documented precedence EPERM, EINDEFINE, ... for put/get and put_att; either applicable code where no precedence is documented), a rejected call changes no byte of the file (image diff around it), leaves no nonblocking request pending, and later calls still behave as the automaton says; non-trivial = at least one call was rejected and one accepted";
             p.gen = [](uint64_t seed, bool th) {
                 Program q; q.seed = seed; q.cfg.profile = "C14"; sim::Rng rng(seed * 2654435761ULL + 17);
                 q.cfg.sim.nprocs = 1 + (int)(seed % 3 == 0 ? 0 : 1 + rng.below(2)); q.cfg.sim.node_of.assign(q.cfg.sim.nprocs, 0); q.cfg.sim.deviate = (seed % 2) ? 0.2 : 0; q.cfg.format = (int[]){1, 2, 5}[seed % 3];
@@ -141,7 +141,7 @@ struct Init {
                 // ... and a file without any variable (dimensions and a global attribute only)
                 { Op c = mk(OP_CREATE); c.name = "/sim/z.nc"; c.a[0] = q.cfg.format; emit(c); Op d = mk(OP_DEF_DIM); d.name = "x"; d.a[0] = 3; emit(d); Op t = mk(OP_DEF_DIM); t.name = "t"; t.a[0] = 0; emit(t);
                   Op a = mk(OP_PUT_ATT); a.var = -1; a.name = "title"; a.att.type = NC_INT; a.att.v = {4, 5}; emit(a); emit(mk(OP_ENDDEF)); emit(mk(OP_CLOSE)); }
-                const int NST = 5, NA = 8; const uint64_t NH = (uint64_t)NST * NA * NA * NA;
+                const int NST = 5, NA = 9; const uint64_t NH = (uint64_t)NST * NA * NA * NA;
                 uint64_t idx = (seed - 1) % (2 * NH); bool exhaustive = idx < NH;
                 int start = exhaustive ? (int)(idx / (NA * NA * NA)) : (int)rng.below(NST);
                 std::vector<int> steps;
@@ -151,7 +151,7 @@ struct Init {
                 else { Op o = mk(OP_OPEN); o.name = start >= 3 ? "/sim/z.nc" : "/sim/m.nc"; o.a[0] = (start == 1 || start == 3); emit(o); }
                 int pctr = 0;
                 auto probes = [&]() {
-                    static const int codes[] = {0, 17, 1, 2, 15, 4, 5, 6, 7, 8, 9, 10, 11, 16, 14};
+                    static const int codes[] = {0, 17, 1, 2, 15, 4, 5, 6, 21, 22, 7, 8, 9, 10, 11, 16, 14};
                     for (int code : codes) {
                         Op pr = mk(OP_PROBE); pr.a[0] = code; pr.a[1] = rng.below(2); pr.name = "p" + std::to_string(pctr++);
                         // decide with the model whether the call will be rejected: wrap rejected calls in an image comparison
@@ -174,6 +174,7 @@ struct Init {
                     case 3: o = mk(OP_END_INDEP); o.a[4] = 1; emit(o); break;
                     case 4: case 5: emit(mk(OP_CLOSE)); { Op op2 = mk(OP_OPEN); op2.name = path; op2.a[0] = (st == 4); emit(op2); } break;
                     case 6: emit(mk(OP_ABORT)); { Op op2 = mk(OP_OPEN); op2.name = path; op2.a[0] = 1; emit(op2); } break;
+                    case 8: o = mk(OP_ENDDEF2); o.a[0] = 0; o.a[1] = 4; o.a[2] = 0; o.a[3] = 4; o.a[4] = 1; emit(o); break;   // the five-argument form: same mode rules as ncmpi_enddef
                     case 7: { Op pz = mk(OP_PROBE); pz.a[0] = 20; pz.name = "z" + std::to_string(pctr++); emit(pz); } break;   // a definition enddef must refuse (NC_EVARSIZE): the file stays in define mode
                     }
                     probes();
